@@ -184,6 +184,9 @@ func (c *fnCtx) objCallSyntax(v *ast.CallExpr, isRecvIdent func(ast.Expr) bool) 
 	if !ok {
 		return nil, ""
 	}
+	if o := c.objVarSyntax(sel.X); o != nil {
+		return o, sel.Sel.Name // x.M(...) on an object parameter or a pooled object
+	}
 	inner, ok := sel.X.(*ast.SelectorExpr)
 	if !ok || !isRecvIdent(inner.X) {
 		return nil, ""
@@ -199,6 +202,9 @@ func (c *fnCtx) objCallOf(v *ast.CallExpr) (*fnVar, string) {
 	sel, ok := v.Fun.(*ast.SelectorExpr)
 	if !ok {
 		return nil, ""
+	}
+	if o := c.objVarSyntax(sel.X); o != nil {
+		return c.sx.objVar[o.field], sel.Sel.Name // x.M(...) on an object parameter or a pooled object
 	}
 	inner, ok := sel.X.(*ast.SelectorExpr)
 	if !ok || !c.isRecv(inner.X) {
@@ -303,8 +309,11 @@ func (c *fnCtx) objMethodType(fv *fnVar, m string, at ast.Node) *fnType {
 	}
 	for i, p := range ft.params {
 		switch p.k {
-		case "int", "byte", "bool", "string", "elem", "struct", "unit", "u64":
+		case "int", "byte", "bool", "string", "elem", "struct", "unit", "u64", "err", "opaque":
 		case "slice":
+			if p.elem.isNum() && !(ft.variadic && i == len(ft.params)-1) {
+				break // p []byte: the argument must be a composite literal (checked at the call): nobody else holds it
+			}
 			if !(ft.variadic && i == len(ft.params)-1) || p.elem.k == "slice" || p.elem.k == "map" {
 				c.lostAt(at, "method %s.%s with a slice parameter (aliasing)", o.field, m)
 			}
@@ -314,7 +323,7 @@ func (c *fnCtx) objMethodType(fv *fnVar, m string, at ast.Node) *fnType {
 	}
 	for _, p := range ft.res {
 		switch p.k {
-		case "int", "byte", "bool", "string", "elem", "struct", "unit", "u64":
+		case "int", "byte", "bool", "string", "elem", "struct", "unit", "u64", "err":
 		case "map":
 			// handed back by content; which map object it is, is not represented
 		default:
@@ -429,6 +438,9 @@ func (c *fnCtx) typeKnownExtra(key string) {
 		i := strings.IndexByte(fm, '.')
 		fv := c.fields[fm[:i]]
 		if fv == nil {
+			fv = c.sx.objVar[fm[:i]] // an object parameter or a pooled object
+		}
+		if fv == nil {
 			return
 		}
 		o := c.objOf(fv)
@@ -493,6 +505,9 @@ func (c *fnCtx) objCall(fv *fnVar, m string, v *ast.CallExpr, pre *[]fnBind, wan
 	for i, a := range v.Args {
 		y, yt := c.expr(a, pre)
 		c.noAlias(a, yt)
+		if _, isLit := a.(*ast.CompositeLit); yt.k == "slice" && !isLit {
+			c.lostAt(a, "slice argument %s of %s.%s (only a composite literal: aliasing)", src(a), o.field, m)
+		}
 		if i >= nfix {
 			rest = append(rest, y)
 		} else {
